@@ -43,8 +43,8 @@ ASSUMPTIONS = [
     "least one cell that pandas cannot re-type (numeral-looking cells occur "
     "beside ordinary text; no booleans or NA tokens)",
     "comment keys [a-z0-9_]{1,25} not colliding with generated keys; values "
-    "single-line strings without leading/trailing blanks and without a run of "
-    "10 dashes",
+    "single-line strings without leading/trailing blanks, not made of dashes "
+    "only",
     "NaN cells only in frames that also have an integer or text column (a "
     "line of empty fields only is a blank line to pandas)",
     "one logical name is used under one storage mode only",
@@ -68,7 +68,9 @@ VALS = ["simple", "with: colon", "a:b:c", "url http://x.y/z?q=1", "# hash",
         "trail:", "tooling in C#", "see issue #", "# starts with hash",
         "ends with dash -", "(parenthesised)", "quote \" inside",
         # numbers and flags given as such (they come back as text)
-        0, 7, 0.0, 2.5, False, True]
+        0, 7, 0.0, 2.5, False, True,
+        # a dashed stretch as long as the header's own rule lines
+        "raw ---------- corrected", "1990----------2020"]
 FORMATS = ["%0.5f", "%0.2f", "%0.8f", "%0.12f", "%.6e", "%0.3f"]
 MODES = ["plain", "zip_csv", "zip_zip", "zip_noext", "member"]
 
@@ -89,9 +91,9 @@ def gen_colname(cs, lab, used):
             n = max(n, 3)
         s = "".join(COLCHARS[cs.draw(f"{lab}.c{i}", len(COLCHARS))]
                     for i in range(n))
-        s = s.strip()
-        if s and s not in used and not s.startswith("-") is False or \
-                (s and s not in used):
+        if not cs.flip(lab + ".keep_outer_blanks", 25):
+            s = s.strip()
+        if s.strip() and s not in used:
             # names must not look numeric in a way that changes identity:
             # "019" is fine (kept as text by the reader's own header parse)
             used.add(s)
@@ -595,6 +597,10 @@ class World:
                 raise Violation("read_failed", f"read_csv of {src} raised "
                                 f"{e!r}", "rewrite_from_read")
         fm0 = rec0["frame"]
+        if [str(c) for c in df.columns] != fm0["cols"]:
+            raise Violation("column_names_differ",
+                            f"{src}: {list(df.columns)} != {fm0['cols']}",
+                            "rewrite_from_read")
         nrow = 1 + cs.draw("nrow", fm0["nrow"])
         ncol = 1 + cs.draw("ncol", len(fm0["cols"]))
         how = cs.choice("how", ["iloc", "copy_iloc", "loc_cols"])
